@@ -226,7 +226,7 @@ def main(tier):
     tree.activate()
     from harness.impl_recovery import RecoveryImpl
 
-    ctx.prove(["AQ.Props.C08"], [])
+    ctx.prove(["AQ.Props.C08", "AQ.Props.C08b"], [])
     ctx.cov["trusted_base"] = [
         "Lean 4.33.0 kernel (+ leanchecker in thorough tier)",
         "axioms: subset of {propext, Classical.choice, Quot.sound} (audited by #print axioms)",
